@@ -22,6 +22,7 @@ Line protocol of the secure-session model (domain `sec`).  hex = lower-case hex,
   sec asecure <r|s> <n|u|m|t> <any 0|1>          → 0 | 1
   sec fanout <reader profiles a|s, comma list>   → per reader c (E image) | p (plain), RTP then RTCP:  <list> <list>
          one packet / one sender report of a TLS server's stream written to that reader population
+  sec rtcpsize <stream|session|multicast|client> <MaxPacketSize> <mkiLen> <plain size>   → toobig | <wire size>
   sec ckey <managed 0|1> <response 0|1> <media 0|1> <session 0|1>   → own | response | media | session | missing
   sec pinit <key> <mki> <ssrcs> <rocs>           → err | ok                       sender context A
   sec phand <nowNs> <tsValue>                    → err | ok <key> <mki> <ssrcs> <startROCs> <ROC per ssrc>    receiver B from A's MIKEY
@@ -248,6 +249,15 @@ def mk : IO Handler := do
           | none => "err"
         return s!"{rtp} {rtcp}"
       | none => return "bad-op"
+    | ["rtcpsize", site, mx, mk, pl] =>
+      let st : Option RtcpSite := if site == "stream" then some .stream else if site == "session" then some .session
+        else if site == "multicast" then some .multicast else if site == "client" then some .client else none
+      match st, mx.toNat?, mk.toNat?, pl.toNat? with
+      | some st, some mx, some mk, some pl =>
+        return match rtcpWireSize st mx mk pl with
+          | none => "toobig"
+          | some n => toString n
+      | _, _, _, _ => return "bad-op"
     | ["ckey", a, b, m, s] =>
       return match clientInKeySource (a == "1") (b == "1") (m == "1") (s == "1") with
         | .own => "own" | .response => "response" | .mediaSdp => "media" | .sessionSdp => "session" | .missing => "missing"
